@@ -4,7 +4,7 @@ import re
 
 from .. import rx, wire
 from ..core import ob, rule, where
-from ..ir import callee, calls, peel, peel_block, walk
+from ..ir import callee, calls, peel, peel_block, walk, children
 from ..rx import EPS, VOID, ev, seq
 from ..shape import Analyzer, Ex
 
@@ -530,6 +530,15 @@ def m1(facts, tier):
                 for a in ancestors(pm, x):
                     if a.get("k") == "If":
                         c = peel(a["c"])
+                        cd = peel_block(c)
+                        if cd.get("k") == "Try":
+                            cd = peel(cd["e"])
+                        if cd.get("k") == "Call" and callee(cd) == "savefile_abi::arg_layout_compatible":
+                            # `if arg_layout_compatible(..)? { mask |= .. }`
+                            in_then = any(y is x for y in walk(a["t"]))
+                            ok = in_then
+                            why = "set in the else-branch of the compatibility test" if not in_then else ""
+                            break
                         if c.get("k") == "Var":
                             init = let_init_of(f, c["v"])
                             i = peel_block(peel(init)) if init else None
@@ -1073,3 +1082,274 @@ def a8(facts, tier):
                              f"{tname}::{mname}: the {side} message can be {ln} bytes long but is written into a {n}-byte stack buffer: the write "
                              f"fails ('failed to write whole buffer') for the longer alternative and the call panics instead of delivering the value",
                              program=tname)
+
+
+
+@rule("M7", ["C10", "C11"], floor=1, doc="connection creation checks every argument AND the return value of every method: the function that calls "
+      "arg_layout_compatible (which is also where nested trait objects, closures and futures are verified) has no successful early exit "
+      "before that call")
+def m7(facts, tier):
+    n = 0
+    for fid, f in sorted(facts.fns.items()):
+        if f["crate"] != "savefile_abi" or not f.get("body"):
+            continue
+        calls_ = [x for x in walk(f["body"]) if x.get("k") == "Call" and callee(x) == "savefile_abi::arg_layout_compatible"]
+        if not calls_:
+            continue
+        order = {id(y): i for i, y in enumerate(walk(f["body"]))}
+        first = min(order[id(c)] for c in calls_)
+        early = []
+        for y in walk(f["body"]):
+            if y.get("k") == "Return" and y.get("e") is not None and order[id(y)] < first:
+                e = peel_block(peel(y["e"]))
+                if e.get("k") == "Adt" and e.get("variant") == "Ok":
+                    early.append(y)
+        n += 1
+        # the position flag handed over is `index.is_none()`-like (a return value exists)
+        yield ob(["C10", "C11"], "M7", f"{fid}:no-early-success", "violation" if early else "pass", where(f, early[0] if early else calls_[0]),
+                 f"{fid}: every item reaches arg_layout_compatible" if not early else
+                 f"{fid}: returns Ok before arg_layout_compatible is called: for the items taking that exit (the return value) neither the "
+                 f"layout decision nor the verification of nested trait objects / closures / futures happens, so an incompatible returned "
+                 f"interface is accepted when the connection is created")
+
+
+# ---------------------------------------------------------------------------------------------
+# N7: which definition is handed to analyze_and_create in which position
+
+class NegoEval:
+    """abstract evaluation of the negotiation code: version values are classes (own / callee / eff), interface definitions are
+    (side, version class); conditionals on version equality are kept as if-then-else values"""
+
+    def __init__(self, facts, f):
+        self.facts = facts
+        self.f = f
+        self.env = {}
+        self.calls = []     # (callee name, [values])
+
+    def ver_recv(self, adt):
+        for fl in adt["fields"]:
+            if fl["f"] == "abi_version_receiver":
+                for y in walk(fl["e"]):
+                    if y.get("k") == "Var":
+                        self.env[y["v"]] = ("ver", "callee")
+
+    def cond_of(self, c, env):
+        c = peel_block(peel(c))
+        if c.get("k") == "Var":
+            v = env.get(c["v"])
+            return v if isinstance(v, tuple) and v and v[0] == "cmp" else None
+        if c.get("k") == "Un" and c.get("op") == "Not":
+            v = self.cond_of(c["e"], env)
+            return ("cmp", "Eq" if v[1] == "Ne" else "Ne", v[2], v[3]) if v else None
+        if c.get("k") == "Bin" and c["op"] in ("Eq", "Ne"):
+            a, b = self.val(c["l"], env), self.val(c["r"], env)
+            if a and b and a[0] == "ver" and b[0] == "ver":
+                return ("cmp", c["op"], a[1], b[1])
+        return None
+
+    def val(self, n, env, depth=0):
+        if not isinstance(n, dict) or depth > 12:
+            return None
+        n0 = n
+        n = peel_block(peel(n))
+        k = n.get("k")
+        if k == "Try" or k == "Cast":
+            v = self.val(n["e"], env, depth + 1)
+            return v[1] if v and v[0] == "res" else v
+        if k == "Var":
+            return env.get(n["v"])
+        if k == "Bin" and n["op"] in ("Eq", "Ne"):
+            return self.cond_of(n, env)
+        if k == "Block":
+            e2 = env
+            for s in n["stmts"]:
+                self.stmt(s, e2)
+            return self.val(n["e"], e2, depth + 1) if n.get("e") is not None else None
+        if k == "If":
+            c = self.cond_of(n["c"], env)
+            t = self.val(n["t"], dict(env), depth + 1)
+            e = self.val(n["f"], dict(env), depth + 1) if n.get("f") is not None else None
+            if c is None:
+                return t if t == e else ("ite", None, t, e)
+            return ("ite", c, t, e)
+        if k == "Call":
+            c = callee(n) or ""
+            if isinstance(n.get("fun"), dict):
+                # call of a local closure variable?
+                fv = peel(n["fun"])
+                if fv.get("k") == "Var" and isinstance(env.get(fv["v"]), tuple) and env[fv["v"]][0] == "closure":
+                    g = self.facts.fns.get(env[fv["v"]][1])
+                    if g is not None:
+                        e2 = dict(env)
+                        ps = [p for p in g["params"][1:] if p.get("pat") and p["pat"].get("k") == "Bind"]
+                        for p_, a_ in zip(ps, n["args"]):
+                            e2[p_["pat"]["v"]] = self.val(a_, env, depth + 1)
+                        return self.val(g["body"], e2, depth + 1)
+                # a message to the other side
+                for a_ in n.get("args", []):
+                    pa = peel(a_)
+                    if pa.get("k") == "Adt" and pa.get("adt") == "savefile_abi::AbiProtocol":
+                        if pa.get("variant") == "InterrogateVersion":
+                            self.ver_recv(pa)
+                            for fl in pa["fields"]:
+                                if fl["f"] == "abi_version_receiver":
+                                    for y in walk(fl["e"]):
+                                        if y.get("k") == "Var":
+                                            env[y["v"]] = ("ver", "callee")
+                        if pa.get("variant") == "InterrogateMethods":
+                            vcls, target = None, None
+                            for fl in pa["fields"]:
+                                if fl["f"] == "callee_schema_version_interrogated":
+                                    vv = self.val(fl["e"], env, depth + 1)
+                                    vcls = vv[1] if vv and vv[0] == "ver" else "?"
+                                if fl["f"] == "result_receiver":
+                                    for y in walk(fl["e"]):
+                                        if y.get("k") == "Var":
+                                            target = y["v"]
+                            if target is not None:
+                                env[target] = ("res", ("def", "callee", vcls))
+                return None
+            if c.endswith(("Fn::call", "FnMut::call_mut", "FnOnce::call_once")) and len(n.get("args", [])) == 2:
+                fv = peel(n["args"][0])
+                cl = env.get(fv["v"]) if fv.get("k") == "Var" else (("closure", fv["id"]) if fv.get("k") == "Closure" else None)
+                tup = peel(n["args"][1])
+                if isinstance(cl, tuple) and cl[0] == "closure" and tup.get("k") == "Tuple":
+                    g = self.facts.fns.get(cl[1])
+                    if g is not None:
+                        e2 = dict(env)
+                        ps = [p for p in g["params"][1:] if p.get("pat") and p["pat"].get("k") == "Bind"]
+                        for p_, a_ in zip(ps, tup["es"]):
+                            e2[p_["pat"]["v"]] = self.val(a_, env, depth + 1)
+                        return self.val(g["body"], e2, depth + 1)
+            if c.endswith("get_latest_version"):
+                return ("ver", "own")
+            if c.endswith("::min") and len(n["args"]) == 2:
+                a, b = self.val(n["args"][0], env, depth + 1), self.val(n["args"][1], env, depth + 1)
+                if a and b and {a, b} == {("ver", "own"), ("ver", "callee")}:
+                    return ("ver", "eff")
+                return None
+            if c.endswith("get_definition") and n.get("args"):
+                v = self.val(n["args"][0], env, depth + 1)
+                return ("def", "own", v[1] if v and v[0] == "ver" else "?")
+            if c.endswith(("::clone", "::to_owned")) and n.get("args"):
+                return self.val(n["args"][0], env, depth + 1)
+            vals = [self.val(a_, env, depth + 1) for a_ in n.get("args", [])]
+            self.calls.append((c, vals, n))
+            return None
+        if k == "Closure":
+            return ("closure", n["id"])
+        if k == "Adt" and n.get("variant") == "Err":
+            return ("res", None)
+        if k == "Match":
+            self.val(n["e"], env, depth + 1)
+            out = None
+            for a in n["arms"]:
+                v = self.val(a["body"], env, depth + 1)
+                out = out or v
+            return out
+        if k in ("Loop", "For"):
+            self.val(n["body"], env, depth + 1)
+            return None
+        if k == "Adt":
+            for fl in n.get("fields", []):
+                self.val(fl["e"], env, depth + 1)
+            return None
+        return None
+
+    def stmt(self, s, env):
+        k = s.get("k")
+        if k == "LetS":
+            if s.get("init") is not None:
+                v = self.val(s["init"], env)
+                if s["pat"].get("k") == "Bind":
+                    if v is not None or s["pat"]["v"] not in env:
+                        env[s["pat"]["v"]] = v
+        elif k == "ExprS":
+            self.stmt(s["e"], env)
+        elif k == "Assign":
+            l = peel(s["l"])
+            if l.get("k") == "Var":
+                env[l["v"]] = self.val(s["r"], env)
+        elif k == "Block":
+            self.val(s, env)
+        elif k == "Match":
+            self.val(s["e"], env)
+            for a in s["arms"]:
+                self.val(a["body"], env)
+        elif k in ("Call", "If", "Try"):
+            self.val(s, env)
+        else:
+            for c in children(s):
+                if isinstance(c, dict):
+                    self.stmt(c, env)
+
+
+def _resolve(v, want, eqs):
+    """does value v denote the definition `want` = (side, version class), given version-class equalities eqs?"""
+    if v is None:
+        return None
+    if v[0] == "res":
+        return _resolve(v[1], want, eqs)
+    if v[0] == "def":
+        if v[1] != want[0]:
+            return False
+        a, b = v[2], want[1]
+        if a == b:
+            return True
+        # union-find over the known equalities
+        cls = {x: x for x in ("own", "callee", "eff")}
+        def find(x):
+            while cls.get(x, x) != x:
+                x = cls[x]
+            return x
+        for p, q in eqs:
+            cls[find(p)] = find(q)
+        return find(a) == find(b)
+    if v[0] == "ite":
+        c = v[1]
+        if c is None:
+            r1, r2 = _resolve(v[2], want, eqs), _resolve(v[3], want, eqs)
+            return None if r1 is None or r2 is None else (r1 and r2)
+        _, op, a, b = c
+        eq_then = [(a, b)] if op == "Eq" else []
+        eq_else = [(a, b)] if op == "Ne" else []
+        r1 = _resolve(v[2], want, eqs + eq_then)
+        r2 = _resolve(v[3], want, eqs + eq_else)
+        return None if r1 is None or r2 is None else (r1 and r2)
+    return None
+
+
+@rule("N7", ["C10", "C11"], floor=4, doc="negotiation hands analyze_and_create, in this order, the caller's and the callee's definition at the negotiated "
+      "version and the caller's and the callee's definition at their own versions; a definition obtained for another version may stand in "
+      "only on a branch whose condition makes the two versions equal (min(own, callee) = eff is known)")
+def n7(facts, tier):
+    for fid, f in sorted(facts.fns.items()):
+        if f["crate"] != "savefile_abi" or not f.get("body") or "abi_entry" in fid:
+            continue
+        if not any(x.get("k") == "Adt" and x.get("adt") == "savefile_abi::AbiProtocol" and x.get("variant") == "InterrogateVersion"
+                   for x in walk(f["body"])):
+            continue
+        ev_ = NegoEval(facts, f)
+        ev_.val(f["body"], ev_.env)
+        site = next(((c, vals, n) for c, vals, n in ev_.calls if c.endswith("analyze_and_create")), None)
+        if site is None:
+            yield ob(["C10", "C11"], "N7", "definitions", "undecided", where(f), f"{fid}: call of analyze_and_create not reached by the evaluation")
+            return
+        c, vals, node = site
+        target = facts.fns.get((node.get("res") or {}).get("fn") or node.get("fn")) or next(
+            (g for g in facts.fns.values() if g["id"].endswith("::analyze_and_create")), None)
+        names = [p["pat"]["v"].split("#")[0] for p in (target["params"] if target else []) if p.get("pat") and p["pat"].get("k") == "Bind"]
+        want = {"caller_effective_definition": ("own", "eff"), "callee_effective_definition": ("callee", "eff"),
+                "caller_native_definition": ("own", "own"), "callee_native_definition": ("callee", "callee")}
+        # eff = min(own, callee): eff == own or eff == callee, nothing else is known a priori
+        for i, nm in enumerate(names):
+            if nm not in want or i >= len(vals):
+                continue
+            r = _resolve(vals[i], want[nm], [])
+            yield ob(["C10", "C11"], "N7", nm, "pass" if r is True else ("undecided" if r is None else "violation"), where(f, node),
+                     f"{nm} is the {want[nm][0]} side's definition at version class `{want[nm][1]}` on every path" if r is True else
+                     (f"{fid}: the value passed as {nm} could not be classified" if r is None else
+                      f"{fid}: the value passed as {nm} is, on some path, a definition of another version whose equality with "
+                      f"`{want[nm][1]}` is not implied by the branch condition: the by-reference decision then compares the caller's "
+                      f"memory layout with a layout the implementation does not have"))
+        return
